@@ -309,6 +309,13 @@ pub fn check_run(
             for p in verdict_props {
                 out.push(v(p, "panic", format!("panicked: {m}")));
             }
+            // a failed call must *return* its errors; one that panics instead does not
+            if !is_stream && !st.failed.is_empty() {
+                out.push(v("C07", "panic-after-failure", format!("call panicked after a function failed: {m}")));
+            }
+            if matches!(cfg.limit, Some(l) if l >= 1) && shape.is_concurrent() && st.failed.is_empty() && !st.signal_sent {
+                out.push(v("C10", "panic-under-limit", format!("call with limit {:?} panicked: {m}", cfg.limit)));
+            }
         }
         _ => {}
     }
